@@ -119,6 +119,14 @@ class C11(core.Check):
                         continue
                     out.append({"kind": "coord", "op": op, "x": x, "y": y})
         out.append({"kind": "bases"})
+        # nested constant expressions: an inner result that overflows int32 feeds an operation that is not a
+        # homomorphism mod 2^32 (every level must wrap, not only the final value)
+        inner = [("+", 2000000000, 2000000000), ("*", 65536, 65536), ("+", INT_MAX, 1), ("-", INT_MIN, 1), ("<<", 3, 31),
+                 ("*", 46341, 46341), ("-", 0, INT_MIN), ("*", -65536, 65536), ("+", 7, 3)]
+        outer = [("/", 2), ("/", 3), ("%", 7), (">>", 4), ("<", 0), (">", 5), ("==", 0), ("&&", 1), ("/", -1), ("%", -10)]
+        for (o1, x, y) in inner:
+            for site in ("typed-literal", "operand", "int-decl"):
+                out.append({"kind": "nested", "site": site, "inner": [o1, x, y], "outer": [list(o) for o in outer]})
         return out
 
     def run_case(self, case):
@@ -130,6 +138,32 @@ class C11(core.Check):
                 exp = explore.ref_outputs(stmts, v, outs)
                 return {k: lang.Sig(None, x.value) for k, x in exp.items()}
             return explore.run_stateless(stmts, ["a"], dom, outs, {"optimize": True}, evaluate=evaluate)
+        if case["kind"] == "nested":
+            o1, x, y = case["inner"]
+            body, outs = [], []
+            for n, (o2, z) in enumerate(case["outer"]):
+                k = B(o2, ("paren", B(o1, I(x), I(y))), I(z))
+                r = f"r{n}"
+                site = case["site"]
+                try:
+                    lang.ev(k, lang.Env())
+                except lang.RefUndefined:
+                    continue
+                if site == "int-decl" and o2 not in ARITH:
+                    continue
+                if site == "typed-literal":
+                    body.append(("decl", "Signal", r, ("lit", "signal-C", k)))
+                elif site == "operand":
+                    body.append(("decl", "Signal", r, B("+", V("a"), ("paren", k))))
+                else:
+                    body += [("decl", "int", f"k{n}", k), ("decl", "Signal", r, B("+", V("a"), V(f"k{n}")))]
+                outs.append(r)
+            stmts = gen.prog_with_inputs(["a"], [gen.thaw(s) for s in body])
+
+            def evaluate2(v):
+                exp = explore.ref_outputs(stmts, v, outs)
+                return {k_: lang.Sig(None, x_.value) for k_, x_ in exp.items()}
+            return explore.run_stateless(stmts, ["a"], {"a": [0, 3]}, outs, {"optimize": True}, evaluate=evaluate2)
         if case["kind"] == "twin":
             op, x, y = case["op"], case["x"], case["y"]
             A = {"stmts": gen.prog_with_inputs(["a"], [("decl", "Signal", "r", B("+", ("paren", B(op, I(x), I(y))), V("a")))]),
